@@ -60,8 +60,8 @@ func tables(powers []int64, maxH, maxR int) (live [][]int, stale []int, err erro
 			row = append(row, s.IdxOfAddr(cur.Proposer().Address))
 		}
 		live = append(live, row)
-		// what a reloaded set reports: round trip through go-wire as State.Save/LoadState do
-		stale = append(stale, s.IdxOfAddr(csim.ReloadValSet(vs).Proposer().Address))
+		// what a restarted node reports: the validator set goes through the real State.Save / LoadState
+		stale = append(stale, s.IdxOfAddr(csim.ReloadThroughState(s.Genesis, vs, int64(h-1)).Proposer().Address))
 		// next height: ExecBlock does nextValSet.IncrementAccum(1)
 		vs = vs.Copy()
 		vs.IncrementAccum(1)
@@ -155,12 +155,15 @@ func replayOne(ti int, tr mbt.Trace, rep *mbt.Report) {
 			switch st.A {
 			case "Internal":
 				n := mbt.Int(st.Args[0])
-				want, _ := csim.MsgFromSpec(st.Args[1])
 				got, err := s.Internal(n)
 				if err != nil {
 					aerr = err
 					return
 				}
+				if len(st.Args) < 2 {
+					return // free-running scenario: no expectation
+				}
+				want, _ := csim.MsgFromSpec(st.Args[1])
 				if got.Key() != want.Key() {
 					aerr = fmt.Errorf("node %d handled internal message %s, spec expects %s", n, got.Key(), want.Key())
 				}
@@ -172,6 +175,10 @@ func replayOne(ti int, tr mbt.Trace, rep *mbt.Report) {
 					return
 				}
 				aerr = s.Deliver(n, m)
+			case "InternalAll":
+				for len(s.Nodes[mbt.Int(st.Args[0])].IQ) > 0 && aerr == nil {
+					_, aerr = s.Internal(mbt.Int(st.Args[0]))
+				}
 			case "Fire":
 				_, aerr = s.Fire(mbt.Int(st.Args[0]))
 			case "Timeout":
@@ -241,6 +248,12 @@ func replayOne(ti int, tr mbt.Trace, rep *mbt.Report) {
 			fail(si, st, "panic", true, "panic:"+st.A, fmt.Sprintf("%v\n%s", p, stack), nil, nil)
 			return
 		}
+		if aerr != nil && st.Post == nil {
+			// scripted scenario whose schedule the (repaired) code no longer admits: nothing to check further
+			rep.Count("scenario_stopped")
+			rep.Traces++
+			return
+		}
 		if aerr != nil {
 			fail(si, st, "mismatch", true, "cannot-follow:"+st.A, "the implementation cannot take the step the specification takes: "+aerr.Error(), nil, nil)
 			return
@@ -253,6 +266,20 @@ func replayOne(ti int, tr mbt.Trace, rep *mbt.Report) {
 			if msg := s.CheckAgreement(); msg != "" {
 				fail(si, st, "property", true, "Agreement", msg, nil, nil)
 				return
+			}
+			continue
+		}
+		if st.Post == nil {
+			// free-running scenario step: only the direct oracles apply
+			if msg := s.CheckAgreement(); msg != "" {
+				fail(si, st, "property", true, "Agreement", msg, nil, nil)
+				return
+			}
+			if os.Getenv("VERIF_CSIM_TRACE") != "" {
+				for _, i := range s.HonestIdx() {
+					g := s.SpecState(i)
+					fmt.Fprintf(os.Stderr, "  step %d %s%s node %d: h=%v r=%v st=%v lb=%v lr=%v prop=%v pb=%v dec=%v iq=%d\n", si, st.A, canon(st.Args), i, g["h"], g["r"], g["st"], g["lb"], g["lr"], g["prop"], g["pb"], g["dec"], len(s.Nodes[i].IQ))
+				}
 			}
 			continue
 		}
